@@ -858,7 +858,7 @@ func (o *Object) ordinaryToPrimitiveNumber() Value {
 		return v
 	}
 
-	panic(o.runtime.NewTypeError("Could not convert %v to primitive", o.self))
+	panic(typeError(fmt.Sprintf("Could not convert %v to primitive", o.self)))
 }
 
 func (o *Object) ordinaryToPrimitiveString() Value {
@@ -870,7 +870,7 @@ func (o *Object) ordinaryToPrimitiveString() Value {
 		return v
 	}
 
-	panic(o.runtime.NewTypeError("Could not convert %v (%T) to primitive", o.self, o.self))
+	panic(typeError(fmt.Sprintf("Could not convert %v (%T) to primitive", o.self, o.self)))
 }
 
 func (o *Object) tryExoticToPrimitive(hint Value) Value {
@@ -883,7 +883,7 @@ func (o *Object) tryExoticToPrimitive(hint Value) Value {
 		if _, fail := ret.(*Object); !fail {
 			return ret
 		}
-		panic(o.runtime.NewTypeError("Cannot convert object to primitive value"))
+		panic(typeError("Cannot convert object to primitive value"))
 	}
 	return nil
 }
